@@ -2,7 +2,7 @@ HOOK_COMMITS = []
 ENGINES = [
     {"name": "runner", "path": "vlib/runner.py", "serves_properties": ["C01"], "kind_free_text": "Hypothesis driver: seeded workers, collect-then-shrink per root-cause key, plain-JSON replay, evidence"},
     {"name": "E1 refcodec", "path": "vlib/refcodec.py", "serves_properties": ["C01","C02","C03"], "kind_free_text": "independent RFC 7252 section 3 codec used as differential oracle and by the raw peers"},
-    {"name": "E2 simnet", "path": "vlib/simnet.py", "serves_properties": ["C02", "C03", "C04", "C07", "C08", "C09", "C10", "C14", "C18"], "kind_free_text": "virtual-clock asyncio loop + simulated datagram network under the real aiocoap stack; scripted raw peers; per-datagram fates"},
+    {"name": "E2 simnet", "path": "vlib/simnet.py", "serves_properties": ["C02", "C03", "C04", "C05", "C07", "C08", "C09", "C10", "C14", "C18"], "kind_free_text": "virtual-clock asyncio loop + simulated datagram network under the real aiocoap stack; scripted raw peers; per-datagram fates"},
 ]
 ALL = ["C%02d" % i for i in range(1, 21)]
 CHECKS = [
@@ -77,6 +77,14 @@ CHECKS += [
         "technique": "property-based testing of registration / trigger / reaction / end-cause histories on a virtual clock against a registration-generation model; probe at quiescence",
         "text": "Generated histories of registrations, state-change bursts, observer reactions (ACK/RST/silence), re-registrations, explicit terminators, transport errors and shutdown; a model derives each registration's end cause and instant and the oracle checks Observe monotonicity, that no state changed after the end is sent, that a probe change at quiescence reaches exactly the live registrations, and the observer count. Sampled histories; 'eventually' is decided by quiescence of the finite scenario.",
         "note": "trusted: vlib/simnet.py, refcodec, the generation/ownership model in checks/c08.py (messages attributed by the instant their state changed)",
+    },
+]
+CHECKS += [
+    {
+        "id": "C05", "engine": "E2 simnet + reference RFC 7959 server + Hypothesis", "level": "exploration",
+        "technique": "property-based differential testing of the block-wise client against an independent RFC 7959 reference server (sizes, negotiations, mid-transfer reductions, loss, misbehaving-server mutations)",
+        "text": "Body sizes around every block boundary, client and server size exponents, mid-transfer reductions in both directions, ETag policy, loss/duplication and nine server misbehaviours are generated; the reference server (written from the RFC, no aiocoap code) records the reassembled body and every inconsistency of the client's block options; results must be byte-identical or library errors. Sampled parameter combinations.",
+        "note": "trusted: the reference server in checks/c05.py (self-tested on a hand-made exchange), vlib/simnet.py, refcodec",
     },
 ]
 claimed = {c["id"] for c in CHECKS}
